@@ -165,9 +165,49 @@ namespace
         const AMPI* operator&() const { return std::addressof(decoy()); }
     };
     static_assert(sizeof(AMPI) <= 2 * sizeof(void*) && std::is_nothrow_move_constructible<AMPI>::value, "AMPI must be stored in place");
-    constexpr int NT = 19;
+    // in place, trivially destructible, but NOT relocatable: it knows its own address.  Copying its bytes instead of running
+    // its move constructor leaves an object that points at where it used to be.
+    struct SELFP
+    {
+        const SELFP* self;
+        uint64_t id;
+        explicit SELFP(uint64_t v) : self(this), id(v) {}
+        SELFP(const SELFP& o) noexcept : self(this), id(o.id) {}
+        SELFP& operator=(const SELFP& o) noexcept { id = o.id; return *this; }
+    };
+    static_assert(sizeof(SELFP) <= 2 * sizeof(void*) && std::is_nothrow_move_constructible<SELFP>::value && std::is_trivially_destructible<SELFP>::value, "SELFP: in place, trivially destructible");
+    // on the heap, with its OWN operator new / operator delete: every block its operator delete sees has to come from its
+    // operator new (and the other way round), whichever internal path created the object
+    struct OWNNEW
+    {
+        uint64_t id;
+        unsigned char pad[40];
+        explicit OWNNEW(uint64_t v) : id(v), pad{} {}
+        static void** blocks() { static void* b[256]; return b; }
+        static void* operator new(std::size_t n)
+        {
+            void* p = std::malloc(n);
+            if (!p) throw std::bad_alloc();
+            void** b = blocks();
+            for (int i = 0; i < 256; ++i) if (!b[i]) { b[i] = p; return p; }
+            std::abort();
+        }
+        static void* operator new(std::size_t, void* where) noexcept { return where; }      // placement form stays available
+        static void operator delete(void*, void*) noexcept {}
+        static void operator delete(void* p) noexcept
+        {
+            if (!p) return;
+            void** b = blocks();
+            for (int i = 0; i < 256; ++i) if (b[i] == p) { b[i] = nullptr; std::free(p); return; }
+            { Suspend s; defer("lifetime", "C06/lifetime/foreign-block-in-class-operator-delete", "the payload's own operator delete was handed a block that its own operator new did not allocate"); }
+            ::operator delete(p);
+        }
+        static int live_blocks() { int n = 0; void** b = blocks(); for (int i = 0; i < 256; ++i) if (b[i]) ++n; return n; }
+    };
+    static_assert(sizeof(OWNNEW) > 2 * sizeof(void*), "OWNNEW must not fit the in-place buffer");
+    constexpr int NT = 21;
     const char* const tnames[NT] = {"int", "S1_inplace", "S2_inplace", "LG_heap", "TMV_heap", "AL_heap", "string_heap", "shared_ptr_inplace", "reflike_inplace", "NK_heap",
-                                    "reflike_heap", "node_heap", "twopart_heap", "int_pointer_inplace", "nest_heap", "bytes20_heap", "MC_heap", "CM_heap", "ampersand_inplace"};
+                                    "reflike_heap", "node_heap", "twopart_heap", "int_pointer_inplace", "nest_heap", "bytes20_heap", "MC_heap", "CM_heap", "ampersand_inplace", "selfpointer_inplace", "own_operator_new_heap"};
     inline bool is_tracked_type(int k) { return (k >= 1 && k <= 5) || k == 9 || k == 16 || k == 17; }
     static_assert(sizeof(RLH) > 2 * sizeof(void*) && sizeof(Node) > 2 * sizeof(void*) && sizeof(TwoPart) > 2 * sizeof(void*), "heap payloads must not fit the in-place buffer");
     inline int tag_of_type(int k) { return 10 + k; }
@@ -210,6 +250,8 @@ namespace
     template <> struct TypeOf<16> { using type = MC; static MC make(uint64_t id) { return MC(id); } static uint64_t id(const MC& v) { return v.id; } static void set(MC& v, uint64_t id) { v.id = id; } };
     template <> struct TypeOf<17> { using type = CM; static CM make(uint64_t id) { return CM(id); } static uint64_t id(const CM& v) { return v.id; } static void set(CM& v, uint64_t id) { v.id = id; } };
     template <> struct TypeOf<18> { using type = AMPI; static AMPI make(uint64_t id) { return AMPI(id); } static uint64_t id(const AMPI& v) { return v.id; } static void set(AMPI& v, uint64_t id) { v.id = id; } };
+    template <> struct TypeOf<19> { using type = SELFP; static SELFP make(uint64_t id) { return SELFP(id); } static uint64_t id(const SELFP& v) { return v.self == std::addressof(v) ? v.id : 666666; } static void set(SELFP& v, uint64_t id) { v.id = id; } };
+    template <> struct TypeOf<20> { using type = OWNNEW; static OWNNEW make(uint64_t id) { return OWNNEW(id); } static uint64_t id(const OWNNEW& v) { return v.id; } static void set(OWNNEW& v, uint64_t id) { v.id = id; } };
     template <> struct TypeOf<9> { using type = NK; static NK make(uint64_t id) { return NK(id); } static uint64_t id(const NK& v) { return v.id; } static void set(NK& v, uint64_t id) { v.id = id; } };
     template <> struct TypeOf<7> { using type = SP; static SP make(uint64_t id) { return std::make_shared<int>(static_cast<int>(id)); } static uint64_t id(const SP& v) { return v ? static_cast<uint64_t>(*v) : 0; } static void set(SP& v, uint64_t id) { v = std::make_shared<int>(static_cast<int>(id)); } };
 
@@ -235,7 +277,9 @@ namespace
         case 15: f(std::integral_constant<int, 15>()); break;
         case 16: f(std::integral_constant<int, 16>()); break;
         case 17: f(std::integral_constant<int, 17>()); break;
-        default: f(std::integral_constant<int, 18>()); break;
+        case 18: f(std::integral_constant<int, 18>()); break;
+        case 19: f(std::integral_constant<int, 19>()); break;
+        default: f(std::integral_constant<int, 20>()); break;
         }
     }
 
@@ -259,7 +303,7 @@ namespace
 
         World(Run& r, const Plan& p) : run(r), plan(p), env(stream(p.seed, TAG_ENV))
         {
-            registry().reset();
+            registry().reset(); for (int bi = 0; bi < 256; ++bi) OWNNEW::blocks()[bi] = nullptr;   // (blocks of an abandoned run are forgotten, not freed)
             registry().sigprefix = "C06";
             tail = "initial/-";
             for (int i = 0; i < NCELLS; ++i) g_cells[i] = cell_value(i);
@@ -380,7 +424,16 @@ namespace
                 switch (v)
                 {
                 case 0: { Active a; new (p) xtl::any(); } break;
-                case 1: with_type(k, [&](auto K) { auto val = TypeOf<decltype(K)::value>::make(id); { Active a; new (p) xtl::any(val); } }); want.empty = false; want.type = k; want.id = id; break;
+                case 1:
+                    if (k == 13 && (st.b & 16))
+                    {
+                        // the source is an ARRAY lvalue: it decays, what is stored is a pointer to its first element (in place)
+                        { Active a; new (p) xtl::any(static_cast<const int (&)[NCELLS]>(g_cells)); }      // const int[6] decays to const int* (= IP)
+                        want.empty = false; want.type = 13; want.id = 0;
+                        SIM_PROBE("constructed_from_an_array_lvalue");
+                        break;
+                    }
+                    with_type(k, [&](auto K) { auto val = TypeOf<decltype(K)::value>::make(id); { Active a; new (p) xtl::any(val); } }); want.empty = false; want.type = k; want.id = id; break;
                 case 2: with_type(k, [&](auto K) { auto val = TypeOf<decltype(K)::value>::make(id); { Active a; new (p) xtl::any(std::move(val)); } }); want.empty = false; want.type = k; want.id = id; break;
                 case 3: { Active a; if (const_rvalue) new (p) xtl::any(std::move(static_cast<const xtl::any&>(slot[src].get())));
                           else if (st.b & 8) new (p) xtl::any(slot[src].get());          // a non-const lvalue any: the copy constructor, not the converting one
